@@ -1,5 +1,5 @@
 (** Property C06 — a template closes exactly when its reported parameters and queries are supplied. *)
-From Tx3 Require Import Base Tir Reduce Walk Reduce_proofs Reduce_inputs Reduce_closed.
+From Tx3 Require Import Base Tir Reduce Walk Reduce_proofs Reduce_inputs Reduce_queries Reduce_closed.
 
 (** the gate before compilation: a constant template holds no unresolved parameter at any position *)
 Theorem C06_constant_closed : forall t, tx_is_constant t = true -> tx_unresolved t = [].
@@ -11,6 +11,11 @@ Proof. exact params_complete. Qed.
 (** ... and every reported one really occurs ("exactly") *)
 Theorem C06_params_sound : forall e n, n ∈ map fst (params e) -> (UValue, n) ∈ unresolved e.
 Proof. exact params_sound. Qed.
+(** every input placeholder found by the independent walk is reported by find_queries, for
+    templates whose queries do not themselves contain queries (the shape lowering produces) *)
+Theorem C06_queries_complete : forall e n,
+  sets_closed e = true -> queries_flat e = true -> (UInput, n) ∈ unresolved e -> n ∈ map fst (queries e).
+Proof. exact queries_complete. Qed.
 (** substitution closes what it is given an argument for, at every position *)
 Theorem C06_apply_args_closes : forall args e n,
   sets_closed e = true -> (UValue, n) ∈ unresolved (apply_args args e) -> n ∉ map fst args.
@@ -57,3 +62,4 @@ Print Assumptions C06_all_args_accepted.
 Print Assumptions C06_apply_inputs_closes.
 Print Assumptions C06_reduce_keeps_closed.
 Print Assumptions C06_tx_reduce_keeps_closed.
+Print Assumptions C06_queries_complete.
